@@ -134,7 +134,7 @@ def merge_loads(spec, as_source=False):
         if fn in LOADS:
             j = kw["junction"]
             if kw.get("in_service", True):
-                total[j] = total.get(j, 0.0) + LOADS[fn] * kw.get("scaling", 1.0) * kw["mdot_kg_per_s"]
+                total[j] = total.get(j, 0.0) + LOADS[fn] * kw.get("scaling", 1.0) * (kw["mdot_kg_per_s"] or 0.0)  # None = NaN -> 0
             else:
                 total.setdefault(j, 0.0)
             if j not in first_pos:
@@ -235,15 +235,33 @@ def stalled_flow(*results, small=1e-5):
     return tot
 
 
+def min_flow(*results, floor=1e-6):
+    """smallest |m| >= floor over all branches of the given results (1.0 if none)"""
+    best = 1.0
+    for r in results:
+        for t in r.values():
+            col = t["cols"].get("mdot_from_kg_per_s")
+            if col:
+                for x in col:
+                    if x is not None and floor <= abs(x) < best:
+                        best = abs(x)
+    return best
+
+
+TEMP_COLS = ("t_k", "t_from_k", "t_to_k", "t_outlet_k")
 MASS_COLS = ("mdot_from_kg_per_s", "mdot_to_kg_per_s", "mdot_kg_per_s", "mdot_flow_kg_per_s")
 
 
-def compare(r0, r1, expect, atol=1e-8):
+def compare(r0, r1, expect, atol=1e-8, tol_m=1e-10):
     """r0, r1: drive.snapshot_results of the original and the rewritten net.  Only the unknowns of the
     calculation are compared (pressures, mass flows, temperatures): every other result column is a function of
     those.  Returns a list of (table, column, label, original, rewritten)."""
     diffs = []
     atol_m = atol + 4.0 * stalled_flow(r0, r1)
+    # outlet temperature of a cooling branch: T_out = T_ext + (T_in - T_ext) exp(-beta/|m|), so
+    # |dT_out/dm| <= (T_in - T_ext)/(e |m|) <= 40 K / |m|: an admissible flow error tol_m moves temperatures by
+    # up to 40 tol_m / min|m| (and mixing hands it on downstream)
+    atol_t = atol + 40.0 * tol_m / min_flow(r0, r1)
     rev = expect.get("reversed", {})
     c = expect.get("p_shift", 0.0)
     skip = expect.get("skip_tables", set())
@@ -276,7 +294,7 @@ def compare(r0, r1, expect, atol=1e-8):
                     continue
                 if col0 in PRESSURE_COLS and x is not None and y is not None:
                     y = y - c
-                if _differs(x, y, atol_m if col0 in MASS_COLS else atol):
+                if _differs(x, y, atol_m if col0 in MASS_COLS else atol_t if col0 in TEMP_COLS else atol):
                     diffs.append((tbl, col0 + ("<->" + col1 if col0 != col1 else ""), lab, x, y))
             if pieces:   # every piece carries the same mass flow; inner pressures are those of a chain
                 m = _get(r0, tbl, "mdot_from_kg_per_s", lab)
@@ -293,3 +311,35 @@ def finite(res):
         for col in t["cols"].values():
             n += sum(1 for x in col if isinstance(x, float) and not math.isnan(x))
     return n
+
+
+def expect_to_json(ex):
+    out = {}
+    for k, v in ex.items():
+        if k == "reversed":
+            out[k] = {t: sorted(ls) for t, ls in v.items()}
+        elif k == "skip_tables":
+            out[k] = sorted(v)
+        elif k == "row_map":
+            out[k] = {t: [[a, b] for a, b in m.items()] for t, m in v.items()}
+        elif k == "series":
+            out[k] = [[a, b] for a, b in v.items()]
+        else:
+            out[k] = v
+    return out
+
+
+def expect_from_json(js):
+    ex = {}
+    for k, v in js.items():
+        if k == "reversed":
+            ex[k] = {t: set(ls) for t, ls in v.items()}
+        elif k == "skip_tables":
+            ex[k] = set(v)
+        elif k == "row_map":
+            ex[k] = {t: {a: b for a, b in m} for t, m in v.items()}
+        elif k == "series":
+            ex[k] = {a: b for a, b in v}
+        else:
+            ex[k] = v
+    return ex
